@@ -46,6 +46,19 @@ def make(reg, frame):
                           r=reg[3] * scale, id="x")
 
 
+def make_from_strings(reg, frame):
+    """The same region built from numeric *strings* (the API passes JSON values through)."""
+    from octoprint_excluderegion.RectangularRegion import RectangularRegion
+    from octoprint_excluderegion.CircularRegion import CircularRegion
+    scale, off = frame
+    if reg[0] == "rect":
+        return RectangularRegion(x1=repr((reg[1] + off) * scale), y1=repr((reg[2] + off) * scale),
+                                 x2=repr((reg[3] + off) * scale), y2=repr((reg[4] + off) * scale),
+                                 id="x")
+    return CircularRegion(cx=repr((reg[1] + off) * scale), cy=repr((reg[2] + off) * scale),
+                          r=repr(reg[3] * scale), id="x")
+
+
 def spec_region(reg):
     if reg[0] == "rect":
         return {"t": "rect", "id": "x", "a": min(reg[1], reg[3]), "b": min(reg[2], reg[4]),
@@ -130,6 +143,11 @@ def run(tier, seed):
                             ("rect", reg[1], reg[4], reg[3], reg[2]),
                             ("rect", reg[3], reg[2], reg[1], reg[4])):
                     variants.append(bitmap(make(alt, frame), frame))
+            # ... and the same corners handed over as strings
+            variants.append(bitmap(make_from_strings(reg, frame), frame))
+            if reg[0] == "rect":
+                variants.append(bitmap(make_from_strings(("rect", reg[3], reg[2], reg[1], reg[4]),
+                                                         frame), frame))
             events_pt.append({"k": "pt", "reg": spec_region(reg), "ins": bitmap(obj, frame),
                               "variants": variants, "frame": list(frame)})
     # containsRegion: ordered pairs (all in thorough, a seeded sample in quick)
